@@ -358,8 +358,12 @@ thread_local! {
     static LAST_PANIC_LOC: std::cell::RefCell<Option<String>> = const { std::cell::RefCell::new(None) };
 }
 
+/// (full source path:line, message) of the most recent panic on any thread
+pub static LAST_PANIC_GLOBAL: std::sync::Mutex<Option<(String, String)>> = std::sync::Mutex::new(None);
+
 pub fn install_quiet_panic_hook() {
     std::panic::set_hook(Box::new(|info| {
+        let full = info.location().map(|l| format!("{}:{}", l.file(), l.line())).unwrap_or_default();
         let loc = info
             .location()
             .map(|l| {
@@ -368,8 +372,46 @@ pub fn install_quiet_panic_hook() {
                 format!("{}:{}", f, l.line())
             })
             .unwrap_or_default();
+        let msg = if let Some(s) = info.payload().downcast_ref::<&str>() {
+            s.to_string()
+        } else if let Some(s) = info.payload().downcast_ref::<String>() {
+            s.clone()
+        } else {
+            "panic".to_string()
+        };
+        if let Ok(mut g) = LAST_PANIC_GLOBAL.lock() {
+            *g = Some((full, msg));
+        }
         LAST_PANIC_LOC.with(|l| *l.borrow_mut() = Some(loc));
     }));
+}
+
+/// The check driver itself unwound. If the panic originated in the library under test (an API call the
+/// driver makes outside a guarded region, e.g. generating the keys it works with), that is a violation
+/// of totality-on-valid-use for the property being checked; anything else is a machinery failure.
+pub fn driver_panicked(id: &str, tier: Tier) -> ! {
+    let last = LAST_PANIC_GLOBAL.lock().ok().and_then(|g| g.clone());
+    if let Some((loc, msg)) = last {
+        if loc.contains("falcon-rust/src/") && !loc.contains("/verif/") {
+            let root = verif_root();
+            let dir = root.join("replays").join(id);
+            let _ = std::fs::create_dir_all(&dir);
+            let rel = format!("replays/{}/{}-driver-panic.json", id, tier.name());
+            let body = json!({"property": id, "tier": tier.name(), "key": "library-panic-outside-guard", "what": format!("{} @ {}", msg, loc), "case": {"kind": "driver-panic"}});
+            let _ = std::fs::write(root.join(&rel), serde_json::to_string_pretty(&body).unwrap());
+            let ev = json!({
+                "property_id": id, "tier": tier.name(), "seed": 0, "level": "model_checking",
+                "coverage": {"states": 1, "transitions": 1, "traces_validated_against_impl": 0, "samples": [format!("library panicked during the check's own (valid) API calls: {} @ {}", msg, loc)], "evaluations": 1, "distinct_nontrivial": 2, "rule": "aborted", "exhaustive": false},
+                "assumptions": [], "wall_s": 0.0, "violations": 1
+            });
+            let _ = std::fs::create_dir_all(root.join("evidence"));
+            let _ = std::fs::write(root.join("evidence").join(format!("{}.json", id)), serde_json::to_string_pretty(&ev).unwrap());
+            println!("VIOLATION property={} replay={} :: the library panicked during valid API use by the check itself (key generation / signing outside a guarded region): {} @ {}", id, rel, msg, loc);
+            std::process::exit(1)
+        }
+        machinery_error(&format!("check driver panicked: {} @ {}", msg, loc));
+    }
+    machinery_error("check driver panicked outside a guarded region")
 }
 
 pub fn hex(b: &[u8]) -> String {
